@@ -775,6 +775,7 @@ class _Inliner(object):
         for n in new:
             ast.fix_missing_locations(n)
         self.changed = True
+        self.inlined_once = getattr(self, "inlined_once", set()) | {q}
         self.log.append("inlined %s at line %d (%s)" % (q, getattr(st, "lineno", 0), ctx))
         return new
 
@@ -813,6 +814,7 @@ class _Inliner(object):
                 if prelude:
                     return node  # an argument had to be bound to a local first: not an expression-level inline
                 inl.changed = True
+                inl.inlined_once = getattr(inl, "inlined_once", set()) | {q}
                 inl.log.append("inlined expression helper %s at line %d" % (q, getattr(node, "lineno", 0)))
                 return ast.copy_location(b[0].value, node)
 
@@ -828,6 +830,8 @@ class _Inliner(object):
 
     def _remove_dead(self):
         for q, (fn, owner, _k) in list(self.new_defs.items()):
+            if q not in getattr(self, "inlined_once", set()):
+                continue  # never inlined: a new method nobody calls here is an entry point (an override the framework calls), not a dead helper
             name = fn.name
             inside = {id(n) for n in ast.walk(fn)}
             refs = 0
